@@ -9,6 +9,7 @@ import (
 	"github.com/idena-network/idena-go/blockchain/fee"
 	"github.com/idena-network/idena-go/blockchain/types"
 	"github.com/idena-network/idena-go/blockchain/validation"
+	"github.com/idena-network/idena-go/common"
 	"github.com/idena-network/idena-go/verifutil"
 )
 
@@ -205,6 +206,12 @@ func TestVerifC04(t *testing.T) {
 		if o.EpochNoKills {
 			o.ZeroStakes = false
 		}
+		godOnly := (sc+verifutil.Shard())%8 == 5
+		if godOnly {
+			// a network without any validated identity: the god node produces every block and the
+			// fee rules of an empty network apply (no base fee)
+			o.NNodes, o.NIdent, o.GodIsIdentity = 0, 0, false
+		}
 		w := NewWorld(o)
 		twin := w.AddTwin()
 		if !startScenario(w, rep, false) {
@@ -241,6 +248,31 @@ func TestVerifC04(t *testing.T) {
 					}
 				}
 			}
+			// a sender drains its account and, in the same block, follows with a contract tx whose max
+			// fee it cannot cover any more (both admitted by the pool on their own)
+			if i%6 == 2 {
+				for _, seq := range w.DrainThenContractSeqs(s.R, 3) {
+					tr, err := w.TwinSeq(twin, seq)
+					rep.Count("drain_then_contract_sequences", 1)
+					if tr != nil && tr.B1 != nil {
+						rep.Count(fmt.Sprintf("drain_then_contract_txs_in_block:%d", len(tr.B1.Body.Transactions)), 1)
+					}
+					if err != nil || tr == nil || !tr.Included {
+						continue
+					}
+					rep.Eval(1)
+					l0, l1 := LedgerOf(tr.Post0), LedgerOf(tr.Post1)
+					if l1.Total.Cmp(l0.Total) > 0 {
+						rep.Violation("tx-sequence-mints:drain-then-contract", fmt.Sprintf("a block in which a sender first sends away (almost) all it has and then runs a contract tx ends with a larger total than the same block without the two: %v > %v", l1.Total, l0.Total),
+							map[string]interface{}{"block": DescribeBlock(tr.B1), "diff": LedgerDiff(l0, l1)})
+					}
+					for a, e := range l1.ByAddr {
+						if e.Balance.Sign() < 0 {
+							rep.Violation("negative-balance:drain-then-contract", fmt.Sprintf("%x ends with balance %v", a[:4], e.Balance), map[string]interface{}{"block": DescribeBlock(tr.B1)})
+						}
+					}
+				}
+			}
 			st := w.View().AppState.State
 			epochBlockBefore := st.EpochBlock()
 			res := s.Step()
@@ -256,6 +288,19 @@ func TestVerifC04(t *testing.T) {
 				rep.Count("epochs_finished", 1)
 			}
 			lm.Check(w, rep, b, epochBlockBefore)
+			if godOnly {
+				rep.Count("blocks_in_network_without_validated_identities", 1)
+				for _, tx := range b.Body.Transactions {
+					if tx.Type == types.DeployContractTx || tx.Type == types.CallContractTx || tx.Type == types.TerminateContractTx {
+						rep.Count("contract_txs_in_network_without_validated_identities", 1)
+					}
+				}
+			}
+			// the shared zero constant of the code base (read wherever a balance or stake is missing)
+			if common.Big0.Sign() != 0 {
+				rep.Violation("shared-zero-constant-modified", fmt.Sprintf("after block %d common.Big0 holds %v: every missing balance / stake / fee now reads as that amount in this process", b.Height(), common.Big0), DescribeBlock(b))
+				common.Big0.SetInt64(0)
+			}
 			if len(b.Body.Transactions) > 0 || lm.Prev != nil {
 				rep.Distinct(b.Hash().Hex())
 			}
